@@ -227,6 +227,12 @@ func (valSet *ValidatorSet) Iterate(fn func(index int, val *Validator) bool) {
 }
 
 // Verify that +2/3 of the set had signed the given signBytes
+// TwoThirds returns floor(2*total/3) without overflowing int64
+// (total*2/3 wraps around for total > MaxInt64/2).
+func TwoThirds(total int64) int64 {
+	return total/3*2 + total%3*2/3
+}
+
 func (valSet *ValidatorSet) VerifyCommit(chainID string, blockID BlockID, height int64, commit *Commit) error {
 	if valSet.Size() != len(commit.Precommits) {
 		return fmt.Errorf("Invalid commit -- wrong set size: %v vs %v", valSet.Size(), len(commit.Precommits))
@@ -265,11 +271,11 @@ func (valSet *ValidatorSet) VerifyCommit(chainID string, blockID BlockID, height
 		talliedVotingPower += val.VotingPower
 	}
 
-	if talliedVotingPower > valSet.TotalVotingPower()*2/3 {
+	if talliedVotingPower > TwoThirds(valSet.TotalVotingPower()) {
 		return nil
 	} else {
 		return fmt.Errorf("Invalid commit -- insufficient voting power: got %v, needed %v",
-			talliedVotingPower, (valSet.TotalVotingPower()*2/3 + 1))
+			talliedVotingPower, (TwoThirds(valSet.TotalVotingPower()) + 1))
 	}
 }
 
